@@ -82,6 +82,11 @@ def directed_cases(tier):
            "cont": 0, "comp": 0, "checksum": 0, "salt": 6, "uuid": "verif", "start": 170000000000000}
     out.append({"cfg": big, "ops": [{"op": "w", "idx": 20000 * i, "len": 20000} for i in range(4)] + [{"op": "w", "idx": 95000, "len": 9000}],
                 "py_sample": [7, 21]})
+    # a continuous (unchunked) file: an append of more than 64 KiB (HDF5's sieve buffer) to a file that is already open goes
+    # to the disk inside the write call itself
+    contbig = dict(big, kind="i", size=2, cplx=0, nsub=1, cont=1, salt=8)
+    out.append({"cfg": contbig, "ops": [{"op": "w", "idx": 0, "len": 20000}, {"op": "w", "idx": 20000, "len": 50000}, {"op": "w", "idx": 70000, "len": 20000},
+                                        {"op": "w", "idx": 99000, "len": 3000}], "py_sample": [5, 9], "py_end": "close"})
     return out
 
 
